@@ -1,5 +1,7 @@
 import Lemmas.BitSetHist
 import Lemmas.BitSetSearch
+import Lemmas.BitSetBounds
+import Lemmas.BitSetHeapLemmas
 /-! # C08 — BitSet is observationally a finite set of non-negative integers
 
 Property theorems only.  The executable model is `Model/BitSet.lean` (`BS.*`, run against `xmath.BitSet` on every
@@ -257,6 +259,81 @@ theorem equal_iff (a b : T) (ha : Inv a) (hb : Inv b) : equal a b = true ↔ ∀
 /-- `Equal` as written, with no invariant assumed: same cached count and same members -/
 theorem equal_iff_raw (a b : T) : equal a b = true ↔ (a.set = b.set ∧ ∀ x, mem a x = mem b x) :=
   BS.equal_iff_raw a b
+
+/-! ## no index-out-of-range panic: every word access of every operation is in bounds
+
+`Model/BitSetChecked.lean` repeats the transcription with checked accesses: `b.data[i]` is `none` (Go: run-time panic
+"index out of range") unless `i < len(b.data)`, a write likewise, a slice expression `s[n:]` unless `n ≤ len(s)`.  The
+total model reads absent words as zero and ignores writes past the end; these theorems show that it never relies on that. -/
+
+/-- **every mutating call, on EVERY state** (a fortiori every state reached from the empty set): the checked execution
+    does not fail and computes what the total model computes -/
+theorem all_accesses_in_bounds (p : Pair) (op : Op) : applyOpC p op = some (applyOp p op) := applyOpC_eq p op
+
+/-- … hence every history from two zero-value bit sets runs without an out-of-range access -/
+theorem all_accesses_in_bounds_run (ops : List Op) : runC ops = some (run ops) := runC_eq ops
+
+/-- … and so do all queries, for every bit set and every non-negative argument -/
+theorem all_accesses_in_bounds_queries (b o : T) (i : Nat) :
+    stateC b i = some (state b i) ∧ nextSetC b i = some (nextSet b i) ∧ previousSetC b i = some (previousSet b i)
+    ∧ nextClearC b i = some (nextClear b i) ∧ previousClearC b i = some (previousClear b i)
+    ∧ firstSetC b = some (firstSet b) ∧ lastSetC b = some (lastSet b) ∧ equalC b o = some (equal b o) :=
+  ⟨stateC_eq b i, nextSetC_eq b i, previousSetC_eq b i, nextClearC_eq b i, previousClearC_eq b i, firstSetC_eq b,
+   lastSetC_eq b, equalC_eq b o⟩
+
+/-- CONTRAST: the checked semantics does see a missing guard — `Set` without `EnsureCapacity`, `ClearRange` without the
+    clamp to the last word, `PreviousSet` without the clamp, `Equal` without the swap to (shorter, longer) all index out
+    of range on small inputs -/
+theorem bounds_contrast :
+    setBitNoEnsureC {} 70 = none
+    ∧ clearRangeNoClampC (setBit {} 5) 0 200 = none
+    ∧ previousSetNoClampC (setBit {} 5) 200 = none
+    ∧ equalNoSwapC (ensureCapacity (setBit {} 5) 2) (setBit {} 5) = none := by decide
+
+/-! ## no shared storage: the heap model
+
+`Model/BitSetHeap.lean` models a bit set as a slice header into a heap of arrays: in-place statements write into the
+array the receiver points to, `make` + `copy` allocates, the caller's slices (arguments of `Load`, results of `Data`)
+live in the same heap and may be scribbled on.  The driver executes this model. -/
+
+/-- **after every session** (calls of the API interleaved with the caller scribbling on slices it holds) the heap is
+    separated — the two bit sets share no array and none with the caller — and it denotes exactly what the value model
+    computes from the calls alone: the scribbles have no effect and no call leaks into another bit set -/
+theorem heap_refines (evs : List Ev) : Sep (runH evs) ∧ (runH evs).denote = run (opsOf evs) :=
+  foldl_heap evs {} sep_init
+
+/-- **no aliasing**: on every state reached by a session, a call changes only the bit sets it is a call on (the receiver;
+    for `r.Load(q.Data())` also `q`, which `Data` trims) — the other bit set keeps its words and its count — and every
+    slice the caller holds keeps its content -/
+theorem no_aliasing (evs : List Ev) (op : Op) :
+    (∀ r', r' ∉ opWrites op → (applyOpH (runH evs) op).view r' = (runH evs).view r')
+    ∧ (∀ a, a ∈ (runH evs).ext → arrAt (applyOpH (runH evs) op).mem a = arrAt (runH evs).mem a) := by
+  obtain ⟨hs, _⟩ := heap_refines evs
+  obtain ⟨d, _, e⟩ := applyOpH_spec (runH evs) hs op
+  refine ⟨fun r' hr' => ?_, e.2⟩
+  rw [← denote_get, d, applyOp_get_other _ _ _ hr', denote_get]
+
+/-- one step, for any separated heap: refinement of the value model, separation kept, caller's slices kept -/
+theorem heap_step (h : Heap) (hs : Sep h) (op : Op) :
+    (applyOpH h op).denote = applyOp h.denote op ∧ Sep (applyOpH h op) ∧ ExtStable h (applyOpH h op) :=
+  applyOpH_spec h hs op
+
+/-- the caller scribbling on a slice it holds changes neither bit set -/
+theorem scribble_harmless (evs : List Ev) (a : Nat) (ha : a ∈ (runH evs).ext) :
+    (scribbleH (runH evs) a).denote = (runH evs).denote :=
+  (scribbleH_spec _ (heap_refines evs).1 a ha).1
+
+/-- CONTRAST: the heap model does see sharing.  `Clone` that shares the slice: a later `Set` on the original shows in
+    the clone.  `Data` that returns the receiver's slice: the caller's scribble changes the bit set.  `Copy` as it
+    was before the fix aa1f799: copying a bit set onto itself zeroes its words and keeps the count -/
+theorem aliasing_contrast :
+    (let h := cloneShareH (runH [.op (.set .A 3), .op (.set .A 70)]) .B .A
+     ((applyOpH h (.set .A 4)).view .B).data ≠ (h.view .B).data)
+    ∧ (let h := dataShareH (runH [.op (.set .A 3)]) .A
+       ((scribbleH h h.lastExt).view .A).data ≠ (h.view .A).data)
+    ∧ (let h := runH [.op (.set .A 5), .op (.set .A 70)]
+       (copyOldH h .A .A).view .A = { data := [0#64, 0#64], set := 2 }
+       ∧ (applyOpH h (.copy .A .A)).view .A = h.view .A) := by decide
 
 /-! non-vacuity: the invariant holds for the zero value and a concrete history; `countSetBits` evaluated at sample
     words; `equal` sees through different capacities -/
